@@ -31,7 +31,7 @@ RULE = (
     "k<=3 (b=0) x n<=3 and x every 2nd rooted host with n<=4 over leaf a, k<=2 b<=2 x n<=2, k<=2 b<=1 x every 4th rooted host with n<=4 over leaf a, k<=2 b=0 x n<=4 over a,b.  Triples whose root "
     "operator differs from the pattern's root operator are run on the implementation for a deterministic 1/8 sample.  Every triple is "
     "run with check_nodes_are_removable False and (when a structural instance exists, else 1/64 sample on 4 variants) True, and patterns with Add "
-    "additionally through RewriteRuleSet(commute=True).  random part (thorough): pattern/host pairs up to 8/20 nodes with a planted, "
+    "additionally through RewriteRuleSet(commute=True).  fixed family: 128 patterns with three independent output nodes x 30 hosts.  random part (thorough): pattern/host pairs up to 8/20 nodes with a planted, "
     "perturbed instance, every host node as root.  non-trivial = triple with a lax instance; distinct = patterns / hosts with >=1 instance"
 )
 ASSUMPTIONS = [
@@ -65,7 +65,7 @@ def thresholds(tier):
         "triples": 400000, "impl_match": 20000, "spec_strict_nonempty": 20000, "lax_only": 20, "removable_blocked": 2000,
         "commute_evals": 20000, "commute_match_only_swapped": 200, "or_backtracking_pattern_matches": 500,
         "or_dispatch_pattern_matches": 20, "multi_output_node_matches": 100, "const_matches": 200, "attr_matches": 100,
-        "none_input_matches": 100, "hosts": 500, "patterns": 2000,
+        "none_input_matches": 100, "hosts": 500, "patterns": 2000, "tri_impl_match": 100,
         "anchor:onnxscript.rewriter._matcher:_valid_to_replace": 5000,
         "anchor:onnxscript.rewriter._matcher:SimplePatternMatcher._multi_match": 1000,
         "anchor:onnxscript.rewriter._basics:MatchResult.merge_current_match": 1000,
@@ -112,7 +112,9 @@ def cases(tier, seed):
     out = []
     for name, pu, hu, n in _plan(tier):
         for i in range({"t-n4": 96, "t-k3-n4": 192}.get(name, n)):
-            out.append({"kind": "exh", "name": name, "pu": list(pu), "hu": list(hu), "chunk": i, "n": n, "seed": seed})
+            out.append({"kind": "exh", "name": name, "pu": list(pu), "hu": list(hu), "chunk": i, "n": n, "seed": seed,
+                        "pshard": name in ("t-b2", "t-attr")})
+    out.append({"kind": "tri", "seed": seed})
     for i0 in range(0, N_RANDOM[tier], RANDOM_PER_SPEC):
         out.append({"kind": "rand", "seed": seed, "i0": i0, "n": RANDOM_PER_SPEC})
     # quick tier also gets a small random sample (reach for the random generator, seed-dependent)
@@ -200,17 +202,31 @@ def compile_pattern(P, want_commute=True):
     return e
 
 
-def pattern_entries(args):
+_AST_CACHE: dict = {}
+
+
+def pattern_entries(args, shard=None):
+    """Compiled pattern universe (cached per worker).  shard=(i, n): only patterns i, i+n, ... (compiled per call; the
+    AST list is cached) — used where the universe is large and the host set small."""
     key = tuple(args)
-    if key not in _PU_CACHE:
-        ps = gen.pattern_universe(*args)
-        es = []
-        for i, P in enumerate(ps):
-            e = compile_pattern(P)
-            e.idx = i
-            es.append(e)
-        _PU_CACHE[key] = es
-    return _PU_CACHE[key]
+    if shard is None:
+        if key not in _PU_CACHE:
+            es = []
+            for i, P in enumerate(gen.pattern_universe(*args)):
+                e = compile_pattern(P)
+                e.idx = i
+                es.append(e)
+            _PU_CACHE[key] = es
+        return _PU_CACHE[key]
+    if key not in _AST_CACHE:
+        _AST_CACHE[key] = gen.pattern_universe(*args)
+    ps = _AST_CACHE[key]
+    es = []
+    for i in range(shard[0], len(ps), shard[1]):
+        e = compile_pattern(ps[i])
+        e.idx = i
+        es.append(e)
+    return es
 
 
 def host_cones(args):
@@ -289,6 +305,11 @@ def classify(e, kind, host, root, removable, commute, impl, strict, lax):
     """Mechanism key of a deviation: coarse predicates over the witness + one diagnosis experiment for OR patterns."""
     f = e.feats
     mech = "plain"
+    if kind == "unsound" and removable:
+        # the same answer is a (lax) instance once S9 is dropped: the removability condition is what was not enforced
+        _, lax0 = spec.match_spec(e.P, host.G, root, False, commute, host.index)
+        if all(i in lax0 for i in impl):
+            return "kind=unsound;mech=removability_not_enforced"
     if kind == "incomplete" and "or_bt" in f:
         # experiment: put, at every OR, the alternative used by one strict instance first.  If the real matcher then
         # reports the match, its answer depends on the order of the alternatives = commitment to the first alternative
@@ -337,25 +358,24 @@ def classify(e, kind, host, root, removable, commute, impl, strict, lax):
             if err or any(i not in l2 for i in r2) or (s2 and not r2):
                 mech = "or_other"
                 break
-    elif "or_disp" in f:
-        mech = "or_dispatch"
+    elif kind == "incomplete" and commute and len(spec.output_nodes(e.P)) >= 3:
+        # with >= 3 output nodes the candidate lists of the 2nd, 3rd.. output node of a *cloned* (commuted) pattern are one
+        # shared iterator (clones have no op identifier): predicate only, the witness shows the rest
+        mech = "commute_multi_output_ge3"
     elif "multi" in f:
         mech = "multi_output_node"
+    elif "or_disp" in f:
+        mech = "or_dispatch"
     else:
         for name in ("attr", "aoa", "domain", "const", "none_in", "cmn", "aoi", "split2"):
             if name in f:
                 mech = name
                 break
     key = f"kind={kind};mech={mech}"
-    if mech in ("or_greedy", "or_merge_shared_node"):
+    if mech in ("or_greedy", "or_merge_shared_node", "commute_multi_output_ge3"):
         return key  # one root cause, whatever the mode
     if commute:
         key += ";commute"
-    if kind == "unsound" and removable:
-        # does the same answer come without the removability check?  then S9 is what was violated
-        _, lax0 = spec.match_spec(e.P, host.G, root, False, commute, host.index)
-        if any(i in lax0 for i in impl):
-            key += ";removable"
     return key
 
 
@@ -411,13 +431,14 @@ def _modes(e):
 
 
 def run_exh(sp):
-    entries = pattern_entries(sp["pu"])
+    pshard = sp.get("pshard")
+    entries = pattern_entries(sp["pu"], (sp["chunk"], sp["n"]) if pshard else None)
     cones = host_cones(sp["hu"])
     pair = len(sp["hu"]) > 3
     ev, viol, sigs = {}, [], set()
     ev["patterns"] = 0
     todo = [e for e in entries if e.multi == pair]
-    if sp["chunk"] == 0:
+    if sp["chunk"] == 0 or pshard:
         ev["patterns"] = len(todo)
         for e in entries:
             if e.refused:
@@ -437,7 +458,7 @@ def run_exh(sp):
     for e in todo:
         by_op.setdefault(e.root_op, []).append(e)
     sample = None
-    for ci in range(sp["chunk"], len(cones), sp["n"]):
+    for ci in (range(len(cones)) if pshard else range(sp["chunk"], len(cones), sp["n"])):
         nodes, root = cones[ci]
         flags0 = None
         if pair:  # both roots' results are graph outputs
@@ -449,7 +470,8 @@ def run_exh(sp):
         except Exception as ex:
             ev["discarded_invalid_host"] = ev.get("discarded_invalid_host", 0) + 1
             continue
-        ev["hosts"] = ev.get("hosts", 0) + 1
+        if not pshard or sp["chunk"] == 0:
+            ev["hosts"] = ev.get("hosts", 0) + 1
         rop = (G["nodes"][root]["op"], G["nodes"][root].get("domain", ""))
         matched, base_lax = [], {}
         for e in by_op.get(rop, []):
@@ -556,11 +578,52 @@ def run_rand(sp):
             "data": {"sigs": sorted(sigs), "viol_counts": nv}, "sample": sample}
 
 
+def run_tri(sp):
+    """Fixed family: patterns with three independent output nodes x hosts with three such roots, every root, all modes."""
+    N, V = gen.N, gen.V
+    forms = [lambda a, b: N("Neg", [V(a)]), lambda a, b: N("Add", [V(a), V(b)]), lambda a, b: N("Sub", [V(a), V(b)]),
+             lambda a, b: N("Add", [V(a), ["c", 1.0]])]
+    pats = []
+    for i, j, k in itertools.product(range(len(forms)), repeat=3):
+        for names in ((("x", "y"), ("z", "w"), ("u", "v")), (("x", "y"), ("x", "y"), ("y", "x"))):
+            P = {"nodes": [forms[i](*names[0]), forms[j](*names[1]), forms[k](*names[2])], "outs": [["o", 0, 0], ["o", 1, 0], ["o", 2, 0]]}
+            pats.append(compile_pattern(P))
+    hosts = []
+    for g3 in (["Neg", "Add", "Sub"], ["Add", "Add", "Neg"], ["Sub", "Add1", "Add"], ["Neg", "Neg", "Neg"], ["Add1", "Add", "Sub"]):
+        for leaves in (("a", "b"), ("b", "a"), ("a", "a")):
+            nodes = []
+            for n, op in enumerate(g3):
+                ins = [leaves[0]] if op == "Neg" else ([leaves[0], "c"] if op == "Add1" else [leaves[n % 2], leaves[(n + 1) % 2]])
+                nodes.append({"op": op.replace("1", ""), "in": ins, "out": [f"t{n}_0"], "attrs": {}})
+            for outs in ([f"t{n}_0" for n in range(3)], ["t0_0"]):
+                hosts.append({"inputs": ["a", "b"], "inits": {"c": 1.0}, "nodes": nodes, "outputs": outs})
+    ev, viol, sigs = {"tri_patterns": len(pats), "tri_hosts": len(hosts)}, [], set()
+    for G in hosts:
+        host = Host(G)
+        for idx, e in enumerate(pats):
+            e.idx = idx
+            if e.pat is None:
+                continue
+            for root in range(3):
+                if (G["nodes"][root]["op"], "") != e.root_op:
+                    continue
+                for commute in _modes(e):
+                    for removable in (False, True):
+                        im, lx = judge(e, host, root, removable, commute, ev, viol, sigs)
+                        if im:
+                            ev["tri_impl_match"] = ev.get("tri_impl_match", 0) + 1
+    nv = {}
+    for v in viol:
+        nv[v["key"]] = nv.get(v["key"], 0) + 1
+    return {"status": "ok", "viol": [v for v in viol if v["what"]], "events": ev, "nontrivial": True, "sig": None,
+            "data": {"sigs": sorted(sigs), "viol_counts": nv}, "sample": None}
+
+
 def run_case(sp):
     import time
 
     t0 = time.process_time()
-    r = run_exh(sp) if sp["kind"] == "exh" else run_rand(sp)
+    r = run_exh(sp) if sp["kind"] == "exh" else (run_tri(sp) if sp["kind"] == "tri" else run_rand(sp))
     r["events"]["cpu_ms"] = int((time.process_time() - t0) * 1000)
     return r
 
